@@ -205,13 +205,25 @@ def run(chk):
             ccases.append("history addp 0 %s %s ; bind 0 %s %s ; clonec 0 1 ; clonec 1 2 ; exec 2 0 %s ; exec 0 0 %s"
                           % (hx("p"), hx(src), hx("x"), vi(1), hx("p"), hx("p")))
             clabels.append("%s chain x %d, context cloned twice" % (nm, n))
+    # ... and chains in which every 1000th operand is a nested expression of some kind (a parenthesis, an element, an argument,
+    # a macro body, an f-string segment compiled by a nested compiler, ...): whatever bounds the chain must keep counting across them
+    for n in [3000, 10000] + ([] if quick else [20000, 50000]):
+        for inner, nm in [("int(f'{1}')", "f-string segment"), ("(1)", "parenthesis"), ("[1][0]", "list element"), ("size([1]) - 1 + 1", "call argument"),
+                          ("[1].map(v, v)[0]", "macro body"), ("{'a': 1}.a", "map value"), ("(true ? 1 : 2)", "conditional"),
+                          ("int(f'{1 + 1}')", "f-string segment with an operator"), ("match 1 { case _: 1 }", "match arm"),
+                          ("int(f'{int(f\"{1}\")}')", "nested f-string segment")]:
+            src = "x" + ("+1" * 999 + "+" + inner) * (n // 1000)
+            ccases.append("history addp 0 %s %s ; bind 0 %s %s ; clonec 0 1 ; clonec 1 2 ; exec 2 0 %s ; exec 0 0 %s"
+                          % (hx("p"), hx(src), hx("x"), vi(1), hx("p"), hx("p")))
+            clabels.append("add chain x %d with a %s as every 1000th operand, context cloned twice" % (n, nm))
     for prof in ("debug", "release"):
         cimpl = run_impl(ccases, prof, isolate=True, timeout=600)
         for lab, c, r in zip(clabels, ccases, cimpl):
             if is_dead(r):
                 chk.violation("cloning / dropping the context of a long flat operator chain exhausts the stack (%s build)" % prof,
                               dict(case=c[:300], label=lab, impl=r, profile=prof))
-    chk.stream("flat operator chains of 1000..20000 operands compiled, their context cloned twice, executed and dropped",
+    chk.stream("flat operator chains of 1000..20000 operands (plain, and with a nested expression of each kind as every 1000th operand) "
+               "compiled, their context cloned twice, executed and dropped",
                2 * len(ccases), len(ccases), exhaustive=False)
     # values nested by accumulation: reduce could build a value as deep as its receiver is long, and values are cloned and
     # dropped recursively (repaired by c89dc49: at most 1000 levels); every size must end without an abort
